@@ -875,6 +875,7 @@ class FsExecutor(object):
         a = self.agent
         entries = []
         calls = 0
+        tail = b''
         while True:
             calls += 1
             if calls > max_calls:
@@ -897,10 +898,20 @@ class FsExecutor(object):
                 if pos + 24 + namlen > used:
                     break
                 name = raw[pos + 24:pos + 24 + namlen]
+                if got == 0 and tail:
+                    # what the previous call delivered of the entry that did not fit is the beginning of that entry's record
+                    # (a truncated entry is cut off, not re-encoded): the record is now here in full, in the same layout
+                    if raw[pos:pos + 24 + namlen][:len(tail)] != tail:
+                        self.fail('readdir-truncated-entry', 'fd_readdir (buffer %d) delivered %d bytes of the entry that did not fit: %s; the complete '
+                                  'record of that entry (%r), delivered by the next call, begins %s' % (bufsize, len(tail), tail.hex(), name, raw[pos:pos + len(tail)].hex()))
+                    self.flags.add('truncated_entry_bytes_delivered')
                 entries.append((name, d_next, d_ino, d_type, namlen))
                 cookie = d_next
                 pos += 24 + namlen
                 got += 1
+            tail = raw[pos:used]
+            if tail == bytes([CANARY] * len(tail)):
+                tail = b''           # reported as used (the "buffer full, come again" signal) but left untouched: nothing to compare
             if used < bufsize:
                 return entries, calls
             if got == 0:
